@@ -163,6 +163,7 @@ class Interp:
         self.notes = []
         self.hooks = {}           # callee name -> f(interp, call node, args) -> value
         self.align = None         # {buffer base: address residue}: makes (uintptr_t)ptr concrete modulo a page
+        self.forced = {}          # {local decl id: value}: the local holds this value whatever is assigned to it
         self.heap0 = None         # {(base, byte offset): value}: initial contents of tracked objects whose scalar
         self.heap = None          # fields are state (not data); stores update it, loads read it (per explored path)
         self.ptr_to_int = False   # a pointer was converted to an integer while no residue was given
@@ -247,6 +248,8 @@ class Interp:
                     env[d["d"]] = wrap(v, d["t"]) if isinstance(v, int) else v
                 else:
                     env[d["d"]] = U
+                if d["d"] in self.forced and fn is self.fn:
+                    env[d["d"]] = self.forced[d["d"]]
         elif k == "IfStmt":
             kids = [x for x in s.c if x is not None]
             v = self.rv(self.ev(kids[0], env, fn, depth), env)
@@ -417,6 +420,8 @@ class Interp:
         n = node.strip()
         if n.k == "DeclRefExpr" and n.get("d") is not None and n.get("dk") in ("local", "param"):
             env[n.get("d")] = wrap(val, n.t) if isinstance(val, int) else val
+            if n.get("dk") == "local" and n.get("d") in self.forced and fn is self.fn:
+                env[n.get("d")] = self.forced[n.get("d")]
             return
         # store through a pointer: record a write when tracked
         p, size = self.addr(n, env, fn, depth)
